@@ -713,6 +713,44 @@ func checkCase(c *Case) *ev.Failure {
 			}
 		}
 	}
+	// form 4: the expression is the index of compound assignments, which the compiler evaluates for the read and for
+	// the write: both must group alike, and like the plain use of the same expression
+	{
+		kt := "int"
+		if c.IsBool {
+			kt = "bool"
+		}
+		src := "func fn(a int, b int, c int, d int, e int, g int, p bool, q bool, r bool, s bool, t bool, u bool) int {\n\tm := map[" + kt + "]int{}\n\tm[" + c.Text + "] += 7\n\tm[" + c.Text + "]++\n\tk := " + c.Text + "\n\tm[k] += 10\n\treturn m[k]*100 + len(m)\n}"
+		vm := goat.New()
+		r := vm.Eval(nil, src, goat.DefaultBudget)
+		if r.Failed() {
+			return fail(c, "index of compound assignments:\n"+src+"\n", -1, "definition accepted", r.ErrString())
+		}
+		for i, m := range c.Vals {
+			var params []goatlang.Value
+			for _, n := range intNames {
+				if v, ok := m[n]; ok {
+					params = append(params, goatValue(v))
+				} else {
+					params = append(params, goatlang.Int32(1))
+				}
+			}
+			for _, n := range boolNames {
+				if v, ok := m[n]; ok {
+					params = append(params, goatValue(v))
+				} else {
+					params = append(params, goatlang.Bool(false))
+				}
+			}
+			rr := vm.Call("main.fn", 1, goat.DefaultBudget, params...)
+			if rr.Failed() {
+				return fail(c, "index of compound assignments:\n"+src+"\n", i, "1801", rr.ErrString())
+			}
+			if got := rr.Rets[0].String(); got != "1801" {
+				return fail(c, "index of compound assignments (one key, 7+1+10, so 1801):\n"+src+"\n", i, "1801", got)
+			}
+		}
+	}
 	// form 2: operands are globals, the expression is evaluated at top level
 	vm = goat.New()
 	for i, m := range c.Vals {
